@@ -37,8 +37,7 @@ Code(route, a) == IF a.has_perm THEN <<route, 1, a.perm, 0>>
                   ELSE IF a.has_time THEN <<route, 3, a.atime[1], a.mtime[1]>>
                   ELSE <<route, 4, a.size, 0>>
 
-SInit == /\ file0 = [content |-> <<1, 2>>, perm |-> First(Perms), uid |-> First(Ids), gid |-> First(Ids),
-                     atime |-> <<9, 9>>, mtime |-> <<9, 8>>]
+SInit == /\ file0 = PlainFile(<<1, 2>>, First(Perms))
          /\ file = file0 /\ attr = Empty /\ pc = "env" /\ hblock = Empty /\ hist = <<>>
 \* an attribute change through the handle
 ByHandle(a) ==
